@@ -70,7 +70,7 @@ fn rescale_knots(r: &mut Rng, ks: &mut Vec<(f64, f64)>, lim: i64) -> &'static st
         2 => (0, r.range(-lim, lim) as i32, "y-scaled"),
         3 => (r.range(-lim, lim) as i32, 0, "x-scaled"),
         4 => {
-            let e = r.range(lim * 2, 900) as i32;
+            let e = r.range((lim * 2).min(850), 900) as i32;
             (if r.chance(1, 2) { e } else { -e }, if r.chance(1, 2) { e / 2 } else { -e / 2 }, "extreme")
         }
         _ => return "",
@@ -236,7 +236,7 @@ pub fn gen_case(campaign: &str, r: &mut Rng) -> Case {
             c
         }
         "pweval" => {
-            let tag = *r.pick(&["p0", "p0", "p0", "p1", "p3", "pn", "q4", "l2", "i3"]);
+            let tag = *r.pick(&["p0", "p0", "p0", "p1", "p3", "pn", "q4", "l2", "i3", "p7", "p8", "i8"]);
             let n = size(r, 1, 12);
             let pw = pw_pieces(r, tag, n, is_logish(tag), true);
             let ends: Vec<f64> = pw.iter().map(|s| s.0).collect();
@@ -251,11 +251,12 @@ pub fn gen_case(campaign: &str, r: &mut Rng) -> Case {
             c
         }
         "evaluator" | "evaluator-nan" => {
-            let tag = *r.pick(&["p0", "p0", "p0", "p1", "p3", "q4"]);
+            // also the WIDE piece types (size_of::<Segment<T>>() > 64): a type-size-gated code path is otherwise never run
+            let tag = *r.pick(&["p0", "p0", "p0", "p1", "p3", "q4", "p7", "p8", "i6", "l8"]);
             let n = size(r, 1, 9);
-            let pw = pw_pieces(r, tag, n, tag == "q4", true);
+            let pw = pw_pieces(r, tag, n, is_logish(tag), true);
             let ends: Vec<f64> = pw.iter().map(|s| s.0).collect();
-            let cap = if tag == "q4" { 12 } else if r.chance(1, 10) || n > 32 { 64 } else { 12 };
+            let cap = if is_logish(tag) { 12 } else if r.chance(1, 10) || n > 32 { 64 } else { 12 };
             let len = 1 + r.below(cap) as usize;
             let with_nan = campaign == "evaluator-nan";
             let mut xs = Vec::with_capacity(len);
@@ -263,7 +264,7 @@ pub fn gen_case(campaign: &str, r: &mut Rng) -> Case {
             for _ in 0..len {
                 let x = if with_nan && r.chance(1, 4) {
                     f64::NAN
-                } else if tag == "q4" {
+                } else if is_logish(tag) {
                     ends[r.below(n as u64) as usize].max(0.01) * *r.pick(&[1.0, 0.999, 1.001, 0.5, 2.0])
                 } else {
                     match r.below(6) {
@@ -288,13 +289,13 @@ pub fn gen_case(campaign: &str, r: &mut Rng) -> Case {
             c
         }
         "evalv" => {
-            let tag = *r.pick(&["p0", "p0", "p1", "p3", "q4"]);
+            let tag = *r.pick(&["p0", "p0", "p1", "p3", "q4", "p7", "p8", "i7", "l7"]);
             let n = size(r, 1, 9);
-            let pw = pw_pieces(r, tag, n, tag == "q4", true);
+            let pw = pw_pieces(r, tag, n, is_logish(tag), true);
             let ends: Vec<f64> = pw.iter().map(|s| s.0).collect();
-            let len = if n > 32 && tag != "q4" { r.below(64) as usize } else { r.below(16) as usize };
+            let len = if n > 32 && !is_logish(tag) { r.below(64) as usize } else { r.below(16) as usize };
             let mut xs: Vec<f64> = (0..len)
-                .map(|_| if tag == "q4" { ends[r.below(n as u64) as usize].max(0.01) * *r.pick(&[1.0, 0.999, 1.001, 0.5, 2.0]) } else { query_near(r, &ends) })
+                .map(|_| if is_logish(tag) { ends[r.below(n as u64) as usize].max(0.01) * *r.pick(&[1.0, 0.999, 1.001, 0.5, 2.0]) } else { query_near(r, &ends) })
                 .collect();
             let sorted = r.chance(2, 3);
             if sorted {
@@ -311,8 +312,13 @@ pub fn gen_case(campaign: &str, r: &mut Rng) -> Case {
             c
         }
         "merge" | "merge-reject" => {
-            let nf = size_capped(r, 1, 6, 400);
-            let ng = if nf > 32 && r.chance(1, 2) { 1 + r.below(6) as usize } else { size_capped(r, 1, 6, 400) };
+            let mut nf = size_capped(r, 1, 6, 400);
+            let mut ng = if nf > 32 && r.chance(1, 2) { 1 + r.below(6) as usize } else { size_capped(r, 1, 6, 400) };
+            if very_long_enabled() && r.chance(1, 500) {
+                // thousands of pieces in BOTH operands (a recursive merge overflows the stack; quadratic behaviour shows)
+                nf = 2000 + r.below(3000) as usize;
+                ng = 2000 + r.below(3000) as usize;
+            }
             let style = r.below(5);
             // index-revealing pieces: k of f's i-th piece = i+1, of g's j-th piece = 1000(j+1)
             let mk = |ends: &[f64], scale: f64, r: &mut Rng, reveal: bool| -> Pw {
@@ -588,7 +594,7 @@ pub fn gen_case(campaign: &str, r: &mut Rng) -> Case {
                 }
                 ks.push((x, moderate(r).0));
             }
-            let sc = rescale_knots(r, &mut ks, 200);
+            let sc = rescale_knots(r, &mut ks, 450);
             let mut c = Case::new("linear", "p1").set("knots", Val::Knots(ks)).cls(&format!("style={style}:n={}:{sc}", ncls(n, 4)));
             c.nontrivial = n >= 3;
             c
@@ -629,7 +635,7 @@ pub fn gen_case(campaign: &str, r: &mut Rng) -> Case {
                 }
                 ks.push((x, yy));
             }
-            let sc = rescale_knots(r, &mut ks, 80);
+            let sc = rescale_knots(r, &mut ks, 250);
             let mut c = Case::new("spline", "p3").set("knots", Val::Knots(ks)).cls(&format!("style={style}:n={}:{sc}", ncls(n, 5)));
             c.nontrivial = n >= 4;
             c
